@@ -202,9 +202,9 @@ def make_cases(spec, tspec, rng, msgtypes, adoc_i, tdoc_i, quick, skipped):
                     add(mt, nb, 'required', t, SETTINGS[-1])
             add(mt, body, 'required', 49, DEFAULT, raw_fields=[f for f in hdr if f[0] != 49] + plain + [(10, '000')])
             # unknown tags
-            for ut in (4990, 9876):
+            for ut in (4990, 9876, 4999, 5000, 5001):        # around the first user-defined tag
                 if ut not in tags_in_doc:
-                    for st in (DEFAULT, SETTINGS[1], SETTINGS[2], SETTINGS[4]):
+                    for st in (DEFAULT, SETTINGS[1], SETTINGS[2], SETTINGS[4]) + ((dict(DEFAULT, allowUnknown=True, checkUserDefined=False),) if ut in (4999, 5000, 5001) else ()):
                         add(mt, body + [(ut, 'u')], 'invalidtag', ut, st)
                     # the same tag twice where a setting tolerates the tag itself: still a duplicate
                     add(mt, body + [(ut, 'u'), (ut, 'w')], 'dup_tolerated', ut, SETTINGS[1] if ut < 5000 else SETTINGS[2])
@@ -225,6 +225,16 @@ def make_cases(spec, tspec, rng, msgtypes, adoc_i, tdoc_i, quick, skipped):
                 nb[i] = (body[i][0], 'x!')
                 add(mt, nb, 'badvalue', body[i][0], DEFAULT)
                 add(mt, nb, 'badvalue', body[i][0], SETTINGS[4])
+                # near misses of the declared type (texts other parsers would take)
+                ty = spec.bynum[body[i][0]]['type']
+                near = (['NaN', 'Inf', '-Inf', 'Infinity', '0x1p4', '1e5', '+1.5', '1_0'] if ty in FLOATY else
+                        ['+1', '1.0', '0x10', '1e2', '1_0', ' 1'] if ty in INTY else
+                        ['y', 'n', 'true', '1', 'YES'] if ty == 'BOOLEAN' else
+                        ['20240101-12:00', '20240101T12:00:00', '20240101-12:00:00,123', '2024-01-01 12:00:00', '20241301-12:00:00'])
+                for v in rng.sample(near, 2):
+                    nb = list(body)
+                    nb[i] = (body[i][0], v)
+                    add(mt, nb, 'badvalue', body[i][0], DEFAULT)
             enum = [i for i in idx_plain if spec.bynum[body[i][0]]['enums']]
             for i in rng.sample(enum, min(2, len(enum))):
                 nb = list(body)
